@@ -32,5 +32,12 @@ let dispatch fn args = match fn, args with
   | "docModifiedP1", [good; fsize; f; arr; c; incr; dts] ->
       str_of_tri (docModifiedP1With (bytes_of_hex good)
                     (z_of_hex fsize) (bytes_of_hex f) (zlist_of_string arr) (contents_of c) (z_of_hex incr) (bool_of_str dts) SF_Other)
+  | "p7Status", [auth; all; signers] ->
+      (* signers: comma separated triples of 0/1: sigAuth digestOK otherOK *)
+      let b c = (c = '1') in
+      let l = if signers = "" then [] else
+        List.map (fun t -> { sigAuth = b t.[0]; digestOK = b t.[1]; otherOK = b t.[2] }) (String.split_on_char ',' signers) in
+      (match p7StatusOf (bool_of_str auth) (bool_of_str all) l with
+       | StValid -> "valid" | StInvalid -> "invalid" | StUnknown -> "unknown")
   | _ -> failwith ("unknown function " ^ fn)
 let () = main dispatch
